@@ -108,7 +108,7 @@ def gen_plan(rng, tier, focus):
             qs = []
             for w in dp.WRITERS:
                 for m in dp.MODES:
-                    qs.append(dp.Query("%s.q%d" % (ds.did, len(qs)), ds, w, m, dp.e_eq(b"a", b"1"), cols, 1))
+                    qs.append(dp.Query("%s.s%d" % (ds.did, len(qs)), ds, w, m, dp.e_eq(b"a", b"1"), cols, 1))
             plan.append((ds, qs + add_queries(ds, 10, gb_mode)))
     # the value whose (column,value) hash is zero
     ds = dp.Dataset(new_id(), [{b"a": dp.HASH0_VALUE, b"b": b"1"}, {b"a": b"x"}, {b"a": dp.HASH0_VALUE}], "hash0")
